@@ -1383,9 +1383,9 @@ EQUIV = [
                 '        min_i = sorted(range(len(G)), key=by_energy)[0]\n'
                 '        max_i = sorted(range(len(G)), key=by_energy, reverse=True)[0]\n')]},
 ]
-# refactorings of review round 3 that wait for the interpreter (/tmp/gaps3/REQ3_C19.md: `ndarray.T` as a view, a slice in
-# a leading position of a subscript store); not read by the self-test - move them into EQUIV once they are silent
-EQUIV_PENDING = [
+# refactorings of review round 3 that needed the interpreter (`ndarray.T` as a view, a slice in a leading position of a
+# subscript store): behaviour-preserving, must stay silent
+EQUIV += [
     {'name': '1D table filled through the rows of the transposed view',
      'edits': [(P_, LOOP_1D,
                 '        for column, x in zip(GoRT.T, x_values):\n'
